@@ -367,9 +367,8 @@ public:
 	Array& operator=(const Array& b)
 	{
 		if(this==&b) return *this;
-		if(--d().rc==0) free();
-		_a=b._a;
-		++d().rc;
+		Array old(b); // take b's block first: b may be stored inside the block released here (a = a[0].children)
+		bswap(_a, old._a);
 		return *this;
 	}
 	
